@@ -180,6 +180,71 @@ pub fn run_case(evs: &Vec<Event>, rng: &mut Rng, out: &mut ShardOut, kind: &str,
   }
 }
 
+// A *session*: several batches through one writer (and one reader) on one thread, each checked as it is sent.
+// State carried from one send to the next (a cached frame, a buffer that is not reset, a reader that remembers
+// a partial record) shows only here.  An item can also be a send that is made to FAIL (the reader side of the pipe
+// closed, a closed descriptor, a full non-blocking pipe): the sends after it must be as exact as any other.
+// The replay holds the last items of the session.
+#[derive(Clone)]
+pub enum Item { Send(Vec<Event>), Failed(u8, Vec<Event>) }
+
+fn item_json(it: &Item) -> Value {
+  match it {
+    Item::Send(b) => json!(b.iter().map(ev_str).collect::<Vec<_>>()),
+    Item::Failed(kind, b) => json!({ "failed_send": kind, "events": b.iter().map(ev_str).collect::<Vec<_>>() })
+  }
+}
+
+// a send that fails: 0 = EPIPE on another writer, 1 = EBADF on another writer, 2 = EAGAIN on the session's own writer (pipe full)
+fn failing_send(kind: u8, evs: &Vec<Event>, pipe: &Pipe, w: &mut DevInputWriter, out: &mut ShardOut) {
+  if cfg!(miri) { return; }
+  let res = match kind {
+    0 => { match Pipe::new() { Some(p2) => { unsafe { libc::close(p2.r); } let mut w2 = DevInputWriter::verif_from_fd(p2.w); let r = w2.send(evs); unsafe { libc::close(p2.w); } std::mem::forget(p2); r.is_err() }, None => return } }
+    1 => { match Pipe::new() { Some(p2) => { let fd = p2.w; drop(p2); let mut w2 = DevInputWriter::verif_from_fd(fd); w2.send(evs).is_err() }, None => return } }
+    _ => {
+      // fill the session's pipe to the brim (one byte at a time at the end), send, then empty it again
+      let chunk = vec![0u8; 65536];
+      loop { let n = unsafe { libc::write(pipe.w, chunk.as_ptr() as *const libc::c_void, chunk.len()) }; if n <= 0 { break; } }
+      loop { let n = unsafe { libc::write(pipe.w, chunk.as_ptr() as *const libc::c_void, 1) }; if n <= 0 { break; } }
+      let r = w.send(evs);
+      pipe.drain();
+      r.is_err()
+    }
+  };
+  out.count(if res { "failed_sends_injected" } else { "failed_sends_that_did_not_fail" });
+}
+
+pub fn run_session(items: &[Item], out: &mut ShardOut, kind: &str) -> bool {
+  let pipe = match Pipe::new() { Some(p) => p, None => { out.count("harness_pipe_errors"); return true; } };
+  let mut w = DevInputWriter::verif_from_fd(pipe.w);
+  let mut reader = DevInputReader { fd: pipe.r };
+  out.count("sessions");
+  out.count(kind);
+  for (bi, it) in items.iter().enumerate() {
+    let evs = match it { Item::Failed(k, b) => { failing_send(*k, b, &pipe, &mut w, out); continue; }, Item::Send(b) => b };
+    out.count("session_batches");
+    let mut fail = check_writer(&pipe, &mut w, evs);
+    if fail.is_none() {
+      // the same records through the one reader of the session
+      if pipe.put(&expected_bytes(evs)) {
+        let mut got: Vec<Event> = vec![];
+        loop { match reader.next() { Ok(e) => got.push(e), Err(_) => break } if got.len() > evs.len() + 2 { break; } }
+        pipe.drain();
+        if &got != evs { fail = Some(("C18:reader-decodes-wrong-event".to_string(), format!("the reader returned {:?}, the records were {:?}", got.iter().take(6).collect::<Vec<_>>(), evs.iter().take(6).collect::<Vec<_>>()))); }
+      }
+    }
+    if let Some((sig, msg)) = fail {
+      let from = bi.saturating_sub(7);
+      let after_failure = items[from..bi].iter().any(|x| matches!(x, Item::Failed(..)));
+      out.violation(Violation { property: "C18".to_string(), clause: "wire-session".to_string(), signature: format!("{}-after-earlier-{}", sig, if after_failure { "failed-send" } else { "batch" }),
+        message: format!("item #{} of a session of {} sends through one writer: {}", bi, items.len(), msg),
+        replay: json!({ "engine": "wire", "property": "C18", "session": items[from..=bi].iter().map(item_json).collect::<Vec<_>>() }) });
+      return false;
+    }
+  }
+  true
+}
+
 pub fn run(opts: &Opts) -> i32 {
   let mut out = ShardOut::new();
   let mut rng = Rng::new(opts.shard_seed() ^ 0xc18);
@@ -267,7 +332,7 @@ pub fn run(opts: &Opts) -> i32 {
     run_case(&evs, &mut rng, &mut out, "every_length_0_to_2100", &keys, &unknown);
   }
   // (3) random batches of any length
-  let n = opts.num("random", if thorough { 300000 } else { 6000 });
+  let n = opts.num("random", if thorough { 600000 } else { 20000 });
   for _ in 0..n {
     let len = match rng.below(10) { 0..=5 => rng.range(1, 8), 6..=8 => rng.range(9, 200), _ => rng.range(201, 2000) };
     let evs: Vec<Event> = (0..len).map(|_| { let k = *rng.pick(&keys); if rng.chance(1, 2) { Pressed(k) } else { Released(k) } }).collect();
@@ -277,11 +342,70 @@ pub fn run(opts: &Opts) -> i32 {
     }
     run_case(&evs, &mut rng, &mut out, "random_batch", &keys, &unknown);
   }
+  // (4) sessions of *related* consecutive batches.
+  // (4a) sweep: a base batch of 2-3 events, then every batch that differs from it in the direction of one event and
+  //      in the key of one event (any of the known keys): a pair of equal length that a weak digest of
+  //      (code, value) fields cannot tell apart is somewhere in this family for multipliers up to the key range
+  let n_bases = opts.num("session_bases", if thorough { 200 } else if aux { 1 } else { 16 });
+  for _ in 0..n_bases {
+    let n = rng.range(2, 3);
+    let base: Vec<Event> = (0..n).map(|_| { let k = *rng.pick(&keys); if rng.chance(1, 2) { Pressed(k) } else { Released(k) } }).collect();
+    for i in 0..n { for j in 0..n {
+      let mut session: Vec<Item> = vec![];
+      for (ki, k2) in keys.iter().enumerate() {
+        if aux && ki % 40 != 0 { continue; }
+        let mut b2 = base.clone();
+        b2[i] = match &b2[i] { Pressed(k) => Released(*k), Released(k) => Pressed(*k) };
+        b2[j] = match &b2[j] { Pressed(_) => Pressed(*k2), Released(_) => Released(*k2) };
+        session.push(Item::Send(base.clone()));
+        session.push(Item::Send(b2));
+      }
+      out.nontrivial(hash64(&(base.iter().map(ev_str).collect::<Vec<_>>(), i, j, 41u8)));
+      out.add("related_pairs_swept", (session.len() / 2) as u64);
+      run_session(&session, &mut out, "sessions_two_field_sweep");
+    } }
+  }
+  // (4b) random sessions over a few keys: every batch is new, a repetition, a permutation or a one- or two-field
+  //      mutation of the previous one
+  let n_sessions = opts.num("sessions", if thorough { 150000 } else if aux { 5 } else { 4000 });
+  for _ in 0..n_sessions {
+    let pool: Vec<KeyCode> = { let c = *rng.pick(&keys); let mut v = vec![c]; for _ in 0..rng.range(2, 5) { v.push(if rng.chance(1, 2) { *rng.pick(&keys) } else { let near = (c as i32 + rng.below(80) as i32 - 40).max(1) as u16; <KeyCode as num_traits::FromPrimitive>::from_u16(near).unwrap_or(c) }); } v };
+    let mut session: Vec<Item> = vec![];
+    let mut prev: Vec<Event> = vec![];
+    for _ in 0..rng.range(4, 40) {
+      let mut b = prev.clone();
+      match if prev.is_empty() { 0 } else { rng.below(6) } {
+        0 => { b = (0..rng.range(1, 4)).map(|_| { let k = *rng.pick(&pool); if rng.chance(1, 2) { Pressed(k) } else { Released(k) } }).collect(); }
+        1 => {}
+        2 => { rng.shuffle(&mut b); }
+        _ => { for _ in 0..rng.range(1, 2) { let i = rng.below(b.len()); b[i] = match (&b[i], rng.below(3)) {
+                 (Pressed(k), 0) => Released(*k), (Released(k), 0) => Pressed(*k),
+                 (Pressed(_), _) => Pressed(*rng.pick(&pool)), (Released(_), _) => Released(*rng.pick(&pool)) }; } }
+      }
+      // now and then a send that fails in between
+      if rng.chance(1, 8) { let fb: Vec<Event> = (0..rng.range(1, 4)).map(|_| { let k = *rng.pick(&pool); if rng.chance(1, 2) { Pressed(k) } else { Released(k) } }).collect(); session.push(Item::Failed(rng.below(3) as u8, fb)); }
+      session.push(Item::Send(b.clone()));
+      prev = b;
+    }
+    out.nontrivial(hash64(&session.iter().map(|it| item_json(it).to_string()).collect::<Vec<_>>()));
+    run_session(&session, &mut out, "sessions_random_related");
+  }
   out.write(opts);
   if out.n_violations() > 0 { 1 } else { 0 }
 }
 
 pub fn replay(rep: &Value, out: &mut ShardOut) -> bool {
+  if let Some(sess) = rep.get("session").and_then(|e| e.as_array()) {
+    let parse = |a: &Vec<Value>| -> Option<Vec<Event>> { let mut v = vec![]; for x in a { v.push(x.as_str().and_then(ev_parse)?); } Some(v) };
+    let mut items: Vec<Item> = vec![];
+    for b in sess {
+      if let Some(a) = b.as_array() { match parse(a) { Some(v) => items.push(Item::Send(v)), None => return false } }
+      else if let Some(a) = b.get("events").and_then(|e| e.as_array()) { match parse(a) { Some(v) => items.push(Item::Failed(b.get("failed_send").and_then(|k| k.as_u64()).unwrap_or(0) as u8, v)), None => return false } }
+      else { return false; }
+    }
+    run_session(&items, out, "replay");
+    return true;
+  }
   let evs: Vec<Event> = match rep.get("events").and_then(|e| e.as_array()) {
     Some(a) => { let mut v = vec![]; for x in a { match x.as_str().and_then(ev_parse) { Some(e) => v.push(e), None => return false } } v },
     None => return false
